@@ -187,8 +187,8 @@ def compile_units(run, units, deps, profile, vmon, tag, extra_head="", nshards=N
     return good
 
 
-SHARD_TIMEOUT = int(os.environ.get("VERIF_SHARD_TIMEOUT", "180"))
-UNIT_TIMEOUT = int(os.environ.get("VERIF_UNIT_TIMEOUT", "90"))
+SHARD_TIMEOUT = int(os.environ.get("VERIF_SHARD_TIMEOUT", "240"))
+UNIT_TIMEOUT = int(os.environ.get("VERIF_UNIT_TIMEOUT", "150"))
 
 
 def run_shards(run, bins, unit_index, args=None, timeout=None, rebuild=None):
